@@ -6,7 +6,7 @@ STREAM = {
                  "serial with the wrong data, answered 304 for validators of another version, served data before the first "
                  "data set, or a failed run changed what is served / sent a notification"},
 }
-RULE = ("24 (quick) / 120 (thorough) random server histories: history-size in {1,2,3,10}, 1..5 validation cycles (data: "
+RULE = ("5 clock boundary histories (three clock readings in one second so that the creation time runs ahead of the clock, whole seconds, the clock stepping back, ...: the case split of advance_created) and 24 (quick) / 120 (thorough) random server histories: history-size in {1,2,3,10}, 1..5 validation cycles (data: "
         "unchanged / small mutation; outcome ok / retryable / fatal with probability 1/4; completion times in the same "
         "second, next second, whole seconds, minutes apart). The validation thread is stopped at every lock acquisition and "
         "at the points after update and after mark_update_done (7 gaps per successful cycle, 2 per failed one); at each gap "
